@@ -2030,7 +2030,7 @@ class TwoDResponse(TwoDSpectrumBase, Saveable):
                         ndata = data[i1_min:i1_max,i3_min:i3_max]
                         self.d__data = ndata
                         
-            elif self.storage_resolution == _total:
+            elif self.storage_resolution == "off":
                 self.set_data_flag(_total)
                 #data_ex = True
                 #try:
